@@ -1,6 +1,7 @@
 package main
 
 import (
+	"bytes"
 	"crypto/x509"
 	"fmt"
 	"math/rand"
@@ -193,6 +194,82 @@ func (c *bsigCtx) verifyEvent(b *bundle.Bundle, sec int64, ns int, signed []map[
 	emit(ev)
 }
 
+type handTime struct {
+	date, expires uint64
+	at            []int64
+	note          string
+}
+
+// handTimes: (date, expires) pairs as unsigned 64-bit values around the honest pair (d, d+dur) and at the edges of the
+// unsigned / signed 64-bit ranges, each with the verification instants worth looking at
+func handTimes(d, dur uint64) []handTime {
+	mid := int64(d + dur/2)
+	return []handTime{
+		{d, d + dur, []int64{int64(d), mid}, "honest values, re-encoded"},
+		{0, 3600, []int64{0, 1800, 3600, 3601}, "epoch"},
+		{0, d + dur, []int64{mid}, "date 0"},
+		{1 << 62, 1<<62 + 3600, []int64{1<<62 + 1800, mid}, "2^62"},
+		{1 << 63, d + dur, []int64{mid, int64(d + dur), 0}, "date 2^63"},
+		{1<<63 + d, d + dur, []int64{mid, int64(d)}, "date 2^63+d"},
+		{1<<63 + d + dur, d + dur, []int64{mid}, "date 2^63+expires"},
+		{1<<64 - 1, d + dur, []int64{mid, 0}, "date 2^64-1"},
+		{1<<64 - 3600, 1800, []int64{0, 900}, "date -3600 as uint"},
+		{d, 1<<63 + d + dur, []int64{mid}, "expires 2^63+"},
+		{d, 1<<64 - 1, []int64{mid}, "expires 2^64-1"},
+		{d, 1<<63 - 1, []int64{mid}, "expires 2^63-1"},
+		{d, d + 604800, []int64{mid, int64(d + 604800)}, "exactly 7 days"},
+		{d, d + 604801, []int64{mid}, "7 days + 1 s"},
+		{d + dur, d, []int64{mid}, "expires before date"},
+	}
+}
+
+// reTime rewrites the unsigned integers stored under the text keys "date" and "expires" of an encoded signed-subset
+func reTime(signed []byte, date, expires uint64) []byte {
+	out := append([]byte{}, signed...)
+	for _, kv := range []struct {
+		key string
+		v   uint64
+	}{{"date", date}, {"expires", expires}} {
+		pat := append([]byte{0x60 | byte(len(kv.key))}, []byte(kv.key)...)
+		i := bytes.Index(out, pat)
+		if i < 0 {
+			return nil
+		}
+		p := i + len(pat)
+		if p >= len(out) || out[p]>>5 != 0 {
+			return nil
+		}
+		n := 1
+		switch ai := out[p] & 0x1f; {
+		case ai == 24:
+			n = 2
+		case ai == 25:
+			n = 3
+		case ai == 26:
+			n = 5
+		case ai == 27:
+			n = 9
+		case ai > 27:
+			return nil
+		}
+		var enc []byte
+		switch {
+		case kv.v < 24:
+			enc = []byte{byte(kv.v)}
+		case kv.v < 1<<8:
+			enc = []byte{24, byte(kv.v)}
+		case kv.v < 1<<16:
+			enc = []byte{25, byte(kv.v >> 8), byte(kv.v)}
+		case kv.v < 1<<32:
+			enc = []byte{26, byte(kv.v >> 24), byte(kv.v >> 16), byte(kv.v >> 8), byte(kv.v)}
+		default:
+			enc = append([]byte{27}, be8(kv.v)...)
+		}
+		out = append(append(append([]byte{}, out[:p]...), enc...), out[p+n:]...)
+	}
+	return out
+}
+
 // bsig-run <tier>: C06. Sign / write-read / verify histories with 1..k signers and tampering.
 func bsigRun(args []string) error {
 	thorough := len(args) > 0 && args[0] == "thorough"
@@ -278,6 +355,7 @@ func bsigRun(args []string) error {
 				var signed []map[string]interface{}
 				expect := []int{-1, -1, -1}
 				chains := []int{}
+				signersDone := []*bsigner{}
 				signInPlace = seq[0] == s6 || si%3 == 0
 				for _, s := range seq {
 					nb, err := signStep(b, s, time.Unix(date, 0), time.Duration(dur)*time.Second, rs, &signed)
@@ -292,6 +370,7 @@ func bsigRun(args []string) error {
 						}
 					}
 					chains = append(chains, len(s.kcs))
+					signersDone = append(signersDone, s)
 					b = nb
 					// optional write/read round trip between signers
 					if r.Intn(2) == 0 && seq[0] != s6 {
@@ -403,6 +482,37 @@ func bsigRun(args []string) error {
 					tam("authority replaced", func(x *bundle.Bundle) {
 						x.Signatures.Authorities[0] = &certurl.AugmentedCertificate{Cert: newKeyCert("p256", []string{hostA}, 0).certs[0], OCSPResponse: []byte("o")}
 					})
+				}
+				// signed-subsets the KEY HOLDER signed with timestamps SignedSubset.Encode never writes (CBOR unsigned integers
+				// up to 2^64-1, far past and far future): the signature is genuine, so only the verifier's own rules about
+				// date / expires (signed 64-bit seconds, at most 7 days apart, window contains t) decide
+				if fb.Signatures != nil && len(signersDone) == len(fb.Signatures.VouchedSubsets) {
+					for k, vs := range fb.Signatures.VouchedSubsets {
+						sk := signersDone[k]
+						for _, tv := range handTimes(uint64(date), uint64(dur)) {
+							ns := reTime(vs.Signed, tv.date, tv.expires)
+							if ns == nil {
+								return fmt.Errorf("harness: date / expires not found in a signed-subset")
+							}
+							alg, err := verifapi.SigningAlgorithmForPrivateKey(sk.kcs[0].key, crandReader())
+							if err != nil {
+								return err
+							}
+							rsigned := append([]map[string]interface{}{}, signed...)
+							rec := &recorder{alg, sk.kcs[0].certs[0].Raw, &rsigned}
+							msg := append(bytes.Repeat([]byte{0x20}, 64), []byte(fb.Version.SignatureContextString())...)
+							msg = append(append(msg, 0), ns...)
+							sig, err := rec.Sign(msg)
+							if err != nil {
+								return err
+							}
+							for _, t := range tv.at {
+								x := cloneBundle(fb)
+								x.Signatures.VouchedSubsets[k].Signed, x.Signatures.VouchedSubsets[k].Sig = append([]byte{}, ns...), append([]byte{}, sig...)
+								ctx.verifyEvent(x, t, 0, rsigned, false, expect, chains, orig, "re-signed by the key holder with hand-made timestamps "+tv.note, nil)
+							}
+						}
+					}
 				}
 				// file-level: every byte of the file region holding the signatures section and beyond (sampled)
 				for j := 0; j < len(file); j++ {
